@@ -1580,7 +1580,11 @@ func (o *ovsdbClient) currentAPI() API {
 }
 
 func hasMonitors(db *database) bool {
-	db.monitorsMutex.Lock()
+	// a monitor is being set up (the lock is held for the whole round
+	// trip): there is, or is about to be, a monitor
+	if !db.monitorsMutex.TryLock() {
+		return true
+	}
 	defer db.monitorsMutex.Unlock()
 	return len(db.monitors) > 0
 }
